@@ -142,6 +142,7 @@ class Rewriter:
         t = self.r8_expect(t)
         t = self.r10_byteorder(t)
         t = self.r9_extend(t)
+        t = self.r26_copy_into(t)
         t = self.r2_match_index(t)
         t = self.r4_iter_adapters(t, cfg)
         t = self.r5_for_enumerate(t)
@@ -288,6 +289,23 @@ class Rewriter:
             else:
                 call = "%s(%s, %s%s)" % (fn, base, lo, "".join(", " + r for r in rest))
             self.note("R10", t, m.start(), fn)
+            t = t[:m.start()] + keep_lines(t[m.start():j + 1], call) + t[j + 1:]
+
+    # R26 D[a..b].copy_from_slice(S) -> slice_copy_into(D, a, b, S)   (a mutable sub-slice loses its length in Verus)
+    def r26_copy_into(self, t):
+        while True:
+            mask = _code_mask(t)
+            m = None
+            for mm in re.finditer(r"\b([A-Za-z_][A-Za-z_0-9]*)\s*\[([^\[\]]+?)\.\.([^\[\]]+?)\]\s*\.\s*copy_from_slice\s*\(", t):
+                if mask[mm.start()]:
+                    m = mm
+                    break
+            if not m:
+                return t
+            j = find_close(t, m.end() - 1, mask)
+            src = t[m.end():j].strip()
+            call = "slice_copy_into(%s, %s, %s, %s)" % (m.group(1), m.group(2).strip(), m.group(3).strip(), src)
+            self.note("R26", t, m.start())
             t = t[:m.start()] + keep_lines(t[m.start():j + 1], call) + t[j + 1:]
 
     # R2 let P = match E[..] {   ->   let scrut__k = E[..]; let P = match scrut__k {
@@ -486,7 +504,8 @@ class Rewriter:
 
     # R18 closure header annotation (side-car driven): |x| BODY -> |x: T| -> (y: U) ensures .. { BODY }
     def r18_closure_headers(self, t, cfg):
-        for (ordinal, header) in cfg.get("closures", []):
+        # highest ordinal first, so that the ordinals of the side-car always refer to the closures of the source text
+        for (ordinal, header) in sorted(cfg.get("closures", []), key=lambda x: -x[0]):
             mask = _code_mask(t)
             # closures = occurrences of `|ident|` or `||` at code positions preceded by '(' or ','
             cands = []
@@ -545,6 +564,7 @@ class Rewriter:
     # R19 small std idioms without a Verus counterpart (each listed in DESIGN 3.2)
     def r19_misc(self, t):
         subs = [
+            (r"\br#gen::", "", "R25 module path prefix `r#gen::` dropped (single-file unit)"),
             (r"\s+as\s+Option<\s*[A-Za-z_][A-Za-z_0-9]*\s*<\s*'_\s*>\s*>", "", "R24 identity cast `as Option<Iter<'_>>` (same type, only spells out a type alias) dropped"),
             (r"\b([A-Za-z_][A-Za-z_0-9]*)\s*\.\s*to_owned\s*\(\s*\)", r"vstd::slice::slice_to_vec(\1)", "R19a slice.to_owned() -> vstd::slice::slice_to_vec(slice)"),
         ]
